@@ -265,7 +265,7 @@ class Effects:
 
 
 # ---------------------------------------------------------------------------
-def parse_time_functions(ctx, include_normalizers=True):
+def parse_time_functions(ctx, include_normalizers=True, with_loading=True):
     """Functions reachable from the non-caching parse / tokenize / issue-listing entry points.
     Calls of Grammar.parse that are only reachable under a true `cache` / `diff_cache` test are dropped."""
     prog, cg = ctx.prog, ctx.cg
@@ -287,6 +287,8 @@ def parse_time_functions(ctx, include_normalizers=True):
     names = [('parso/grammar.py', 'Grammar.parse'), ('parso/grammar.py', 'PythonGrammar._tokenize_lines'),
              ('parso/grammar.py', 'PythonGrammar._tokenize'), ('parso/python/tokenize.py', 'tokenize'),
              ('parso/python/tokenize.py', 'tokenize_lines')]
+    if with_loading:
+        names += [('parso/grammar.py', 'load_grammar'), ('parso/__init__.py', 'parse')]
     if include_normalizers:
         names += [('parso/grammar.py', 'Grammar.iter_errors'), ('parso/grammar.py', 'Grammar._get_normalizer_issues'),
                   ('parso/grammar.py', 'Grammar.refactor'), ('parso/grammar.py', 'Grammar._normalize')]
@@ -333,13 +335,18 @@ def eff_1(ctx, rep):
     rep.stat('parse_time_functions', len(reach))
     rep.stat('call_resolution', dict(ctx.cg.stats))
     build = ctx.cg.reachable([ctx.prog.func('parso/pgen2/generator.py', 'generate_grammar')])
+    # functions that run only while a grammar is generated (not reachable from the parse-time roots without load_grammar)
+    no_load, _ = parse_time_functions(ctx, with_loading=False)
+    build_only = {k for k in build if k not in no_load} | {k for k in reach if k not in no_load and k[1].endswith('.__init__')
+                                                          and k[0] in ('parso/grammar.py', 'parso/pgen2/generator.py', 'parso/pgen2/grammar_parser.py')}
+    rep.stat('build_phase_functions', len(build_only))
     for key in sorted(reach):
         f = ctx.prog.funcs[key]
         writes = eff.shared_writes(f)
-        if key in build and key not in (('parso/python/tokenize.py', 'tokenize'), ('parso/python/tokenize.py', 'tokenize_lines'),
-                                        ('parso/python/tokenize.py', '_get_token_collection')):
-            # functions shared with the table-building phase are analysed like everything else
-            pass
+        if key in build_only:
+            # table-building phase (first use of a grammar): the objects written are the ones under construction;
+            # only writes to module-level state count here
+            writes = [(n, why) for n, why in writes if why.startswith(('module global', 'rebinds module global', 'class-level'))]
         if not writes:
             rep.ob('EFF-1', key[0], key[1], 'def %s' % f.name, True)
             continue
